@@ -237,6 +237,14 @@ func (env *Env) elab(e Expr) (Val, error) {
 			return Val{T: not(v.T)}, nil
 		case "-":
 			return Val{T: app("Int", "-", v.T), GoT: mathInt}, nil
+		case "*":
+			if v.GoT == nil {
+				return Val{}, fmt.Errorf("deref of untyped value")
+			}
+			if _, ok := v.GoT.Underlying().(*types.Pointer); !ok {
+				return Val{}, fmt.Errorf("deref of non-pointer %s", v.GoT)
+			}
+			return env.derefVal(v)
 		}
 	case EBinary:
 		return env.elabBinary(x)
